@@ -626,3 +626,79 @@ def c03_aero_history(rng, tier):
     if np.max(np.abs(JL - JF)) > jtol * sc:
         out.append(_fail("total derivatives of a live AeroPoint after a history differ from a fresh problem", float(np.max(np.abs(JL - JF))), 0.0, **case))
     return out
+
+
+# ---------------------------------------------------------------------------------------
+# C19  MPhys wrapper groups == native groups, also with several wrapped problems alive in one process
+# ---------------------------------------------------------------------------------------
+def _mphys_wrapper(surfaces, flow, compressible):
+    import openmdao.api as om
+    from mphys.core import MPhysVariables as MV
+    from openaerostruct.mphys.demux_surface_mesh import DemuxSurfaceMesh
+    from openaerostruct.mphys.mux_surface_forces import MuxSurfaceForces
+    from openaerostruct.mphys.aero_solver_group import AeroSolverGroup
+    from openaerostruct.mphys.aero_funcs_group import AeroFuncsGroup
+    prob = om.Problem(reports=False)
+    ivc = om.IndepVarComp()
+    ivc.add_output(MV.Aerodynamics.Surface.COORDINATES, val=np.concatenate([s["mesh"].ravel() for s in surfaces]), units="m")
+    ivc.add_output(MV.Aerodynamics.FlowConditions.ANGLE_OF_ATTACK, val=flow["alpha"], units="deg")
+    ivc.add_output(MV.Aerodynamics.FlowConditions.YAW_ANGLE, val=0.0, units="deg")
+    ivc.add_output(MV.Aerodynamics.FlowConditions.MACH_NUMBER, val=flow["Mach_number"])
+    ivc.add_output(MV.Aerodynamics.FlowConditions.REYNOLDS_NUMBER, val=flow["re"], units="1/m")
+    ivc.add_output("v", val=flow["v"], units="m/s"); ivc.add_output("rho", val=flow["rho"], units="kg/m**3")
+    ivc.add_output("cg", val=np.array(flow["cg"]), units="m")
+    m = prob.model
+    m.add_subsystem("ivc", ivc, promotes=["*"])
+    m.add_subsystem("demuxer", DemuxSurfaceMesh(surfaces=surfaces), promotes=["*"])
+    m.add_subsystem("states", AeroSolverGroup(surfaces=surfaces, compressible=compressible), promotes=["*"])
+    m.add_subsystem("muxer", MuxSurfaceForces(surfaces=surfaces), promotes=["*"])
+    m.add_subsystem("funcs", AeroFuncsGroup(surfaces=surfaces, write_solution=False), promotes=["*"])
+    with quiet():
+        prob.setup()
+        # the thickness-to-chord distribution is an input of the functionals (connected from the geometry by the MPhys builder)
+        for s in surfaces:
+            prob.set_val(s["name"] + ".t_over_c", np.full(s["mesh"].shape[1] - 1, float(np.atleast_1d(s.get("t_over_c_cp", [0.12]))[0])))
+    return prob
+
+
+def _wrapper_results(prob):
+    from mphys.core import MPhysVariables as MV
+    with quiet():
+        prob.run_model()
+    return np.array(prob.get_val(MV.Aerodynamics.Surface.LOADS)).copy(), float(prob.get_val("CL")[0]), float(prob.get_val("CD")[0])
+
+
+@oracle("C19", "mphys_wrapper_equals_native")
+def c19_mphys(rng, tier):
+    try:
+        import mphys  # noqa: F401
+    except Exception:
+        raise Discard()
+    surfaces = _aero_config(rng, tier, ns=2)
+    compressible = bool(rng.integers(2))
+    flow = _flow(rng)
+    out = []
+    case = dict(shapes=[list(s["mesh"].shape) for s in surfaces], compressible=compressible)
+
+    def native(surfs):
+        p = pipelines.run_aero_point(surfs, flow, compressible=compressible)
+        f = np.concatenate([np.array(p.get_val("pt.aero_states.%s_mesh_point_forces" % s["name"])).ravel() for s in surfs])
+        return f, float(p.get_val("pt.CL")[0]), float(p.get_val("pt.CD")[0])
+
+    def differs(a, b):
+        return relerr(a[0], b[0]) > 1e-9 or abs(a[1] - b[1]) > 1e-9 * max(abs(b[1]), 1e-9) or abs(a[2] - b[2]) > 1e-9 * max(abs(b[2]), 1e-9)
+    order2 = [surfaces[1], surfaces[0]]
+    n1 = native(surfaces); n2 = native(order2)
+    w1 = _mphys_wrapper(surfaces, flow, compressible)
+    r1 = _wrapper_results(w1)
+    if differs(r1, n1):
+        out.append(_fail("MPhys wrapper groups differ from the native AeroPoint", [r1[1], r1[2]], [n1[1], n1[2]], **case))
+    w2 = _mphys_wrapper(order2, flow, compressible)         # a second wrapped model, other surface order, same process
+    r2 = _wrapper_results(w2)
+    if differs(r2, n2):
+        out.append(_fail("MPhys wrapper groups differ from the native AeroPoint (permuted surface list)", [r2[1], r2[2]], [n2[1], n2[2]], **case))
+    r1b = _wrapper_results(w1)                              # the first problem is still alive: re-run it
+    if differs(r1b, n1):
+        out.append(_fail("a live MPhys-wrapped problem changes its results after another wrapped problem was set up in the same process",
+                         [r1b[1], r1b[2]], [n1[1], n1[2]], **case))
+    return out
